@@ -200,6 +200,7 @@ func run(c Case) (pbt.Outcome, error) {
 	type callInfo struct {
 		call, ret int
 		err       string
+		loopDone  bool
 	}
 	calls := map[string]*callInfo{}
 	againCall, againRet := -1, -1
@@ -220,6 +221,7 @@ func run(c Case) (pbt.Outcome, error) {
 			lastRetMark = e.Mark
 			calls[f[1]].ret = e.Seq
 			calls[f[1]].err = strings.TrimPrefix(f[2], "err=")
+			calls[f[1]].loopDone = f[3] == "loopdone=true"
 		case "again-call":
 			againCall = e.Seq
 		case "again-ret":
@@ -322,8 +324,15 @@ func run(c Case) (pbt.Outcome, error) {
 			}
 		}
 	}
-	if !strings.HasSuffix(lastRetMark, "loopdone=true") {
-		errs.Addf("when the last Close call returned the reporting goroutine had not ended (%s)", lastRetMark)
+	// the call that did the shutdown work (the one whose interval contains the final flush) must
+	// find the reporting goroutine ended when it returns; calls that lost the race may return
+	// earlier (weakest reading: the barrier is judged once all calls have returned), and their own
+	// reading of the flag is not ordered with the winner's progress
+	_ = lastRetMark
+	for k, ci := range calls {
+		if ci.call < lastFlushBeforeRet && lastFlushBeforeRet < ci.ret && !ci.loopDone {
+			errs.Addf("when Close call %s (which ran the final report) returned, the reporting goroutine had not ended", k)
+		}
 	}
 	if againCall >= 0 {
 		if againErr != "<nil>" {
